@@ -82,10 +82,18 @@ inductive Unit
   | hdrA (frm : HFrom) (to : Option Addr)
   | list (items : List Item)
   | proceed | failure | streamErr | tlsOther | foreign | space | malformed
+  /-- a `<stream:error/>` element that declares the stream namespace itself: it is recognised
+  wherever it appears — also in place of a stream header, where `streamErr` (which relies on the
+  prefix declared by the header) is just an unexpected element.  With the WebSocket framing every
+  top-level element is a document of its own, so this is the only stream error there is. -/
+  | streamErrD
   deriving Repr, DecidableEq
 
 inductive PItem
   | unit (u : Unit)
+  /-- bytes with which the client's TLS layer cannot go on: junk below the layer — or, when the
+  handshake is due, a handshake the client must not accept (a certificate for another name, or of
+  an unknown CA): the ClientHello leaves, the handshake fails, nothing is delivered -/
   | junk
   deriving Repr
 
@@ -149,6 +157,10 @@ inductive Ev
   | hello (n : Name)
   deriving Repr, DecidableEq
 
+/-- the scheme of a WebSocket origin / location URL -/
+inductive Scheme | http | https | ws | wss
+  deriving Repr, DecidableEq
+
 /-- the kinds of `io.ReadWriter` a session can be created on -/
 inductive ConnKind
   /-- a plain `io.ReadWriter` (wrapped by `newConn`) -/
@@ -160,11 +172,32 @@ inductive ConnKind
   | stateMethod
   /-- a real `*tls.Conn` whose configuration names the server `n` -/
   | tlsConn (n : Name)
+  /-- WebSocket framing (`websocket.Negotiator` / `websocket.NewSession`) on an `io.ReadWriter`
+  that is not a `*websocket.Conn` (`netConn`: it is a `net.Conn`): a clear-text carrier -/
+  | wsRaw (netConn : Bool)
+  /-- `websocket.NewSession` on a `*websocket.Conn`: which side of the WebSocket handshake it was
+  (`client`), the scheme of its origin URL and of its location URL.  RFC 6455: the location
+  scheme says what the connection runs over — `wss` = TLS, `ws` = clear text; the origin is the
+  URL of the page/application that opened it and says nothing about the transport. -/
+  | wsConn (client : Bool) (origin location : Scheme)
   deriving Repr, DecidableEq
 
-/-- `negotiateSession`: only a `*tls.Conn` makes a session start with `Secure` set -/
+/-- what the connection really runs over (for a `*websocket.Conn`: RFC 6455, the location scheme) -/
+def ConnKind.transportTLS : ConnKind → Bool
+  | .tlsConn _ => true
+  | .wsConn _ _ l => l == .wss
+  | _ => false
+
+/-- `negotiateSession`: only a `*tls.Conn` makes a session start with `Secure` set;
+`websocket.NewSession`: only a `*websocket.Conn` whose location is a `wss:` URL -/
 def ConnKind.startsSecure : ConnKind → Bool
   | .tlsConn _ => true
+  | .wsConn _ _ l => l == .wss
+  | _ => false
+
+/-- the session uses the WebSocket framing (`<open/>` … `<close/>`, every element its own document) -/
+def ConnKind.wsFraming : ConnKind → Bool
+  | .wsRaw _ | .wsConn _ _ _ => true
   | _ => false
 
 /-- the server name of the connection's own TLS configuration, if it is a TLS connection -/
@@ -309,6 +342,8 @@ def expectHdr : Nat → Sess → Res PUnit
       -- (a `<stream:error/>` in place of the header cannot be recognised: its prefix is
       -- not declared yet, so it is just an unexpected element)
       | .malformed => .stop (.err .read) s'
+      -- (`Expect` itself decodes an element `error` in the stream namespace)
+      | .streamErrD => .stop (.err .streamerr) s'
       | _ => .stop (.err .proto) s'
 
 /-! ### features.go: reading the list -/
@@ -391,6 +426,7 @@ def negotiateOne (c : Cached) (res : NegRes) (s : Sess) : Res (Mask × Rw) :=
         | .proceed => .ok (Secure, .tls) s2
         | .failure => .stop (.err .refused) s2
         | .streamErr => .stop (.err .streamerr) s2
+        | .streamErrD => .stop (.err .streamerr) s2
         | .malformed => .stop (.err .read) s2
         | _ => .stop (.err .proto) s2
   else
@@ -449,6 +485,7 @@ def negotiateFeatures (cfg : FCfg) (first : Bool) (s : Sess) : Res FOut :=
         else if !doTLS && cache.isEmpty then .stop (.err .proto) s1
         else select cfg doTLS req cache (skippedItems cfg s1.state items) s1.oracle s1
     | .streamErr => .stop (.err .streamerr) s1
+    | .streamErrD => .stop (.err .streamerr) s1
     | .malformed => .stop (.err .read) s1
     | _ => .stop (.err .proto) s1
 
@@ -613,5 +650,25 @@ def sessions : Option Name → List SniSess → List (Option Name)
     | .n => none :: sessions cap rest
     | .f => none :: sessions (negotiateName cap x.domain).1 rest
     | _ => some (negotiateName cap x.domain).2 :: sessions (negotiateName cap x.domain).1 rest
+
+/-! ### the same with what `Negotiate` does to its closure variable as a parameter -/
+
+/-- what `Negotiate` of a STARTTLS feature value does: from (closure variable, domain of the
+session's own address) to (closure variable afterwards, server name handed to `tls.Client`) -/
+abbrev NameFn := Option Name → Nat → Option Name × Name
+
+/-- `sessions` for an arbitrary `Negotiate` -/
+def sessionsG (f : NameFn) : Option Name → List SniSess → List (Option Name)
+  | _, [] => []
+  | cap, x :: rest =>
+    match x.kind with
+    | .n => none :: sessionsG f cap rest
+    | .f => none :: sessionsG f (f cap x.domain).1 rest
+    | _ => some (f cap x.domain).2 :: sessionsG f (f cap x.domain).1 rest
+
+/-- starttls.go before bd73f11: the default configuration was assigned to the closure variable -/
+def negotiateNameCapturing : NameFn
+  | some n, _ => (some n, n)
+  | none, d => (some (.dom d), .dom d)
 
 end XmppModel.StartTLS
